@@ -125,7 +125,7 @@ CHECKS = {
              'grammar object that an accessor indexes with a PIdx/TIdx/RIdx are found from the accessors\' MIR; in the constructor '
              'every vector flowing into such a field must end with the length of its class leader (the vector whose len() '
              'becomes prods_len/tokens_len/rules_len): same initial length and pushes in the same straight-line regions, or '
-             'a snapshot of / one push per element of the completed leader. The string parse_string assembles chunk by chunk is only appended to inside its scan loop. No character class of a token regex mixes the two quote characters (a quoted token ends at its own kind of quote). On every pass of the production loop that consumed a token, the production\'s end becomes the end of the last token consumed.',
+             'a snapshot of / one push per element of the completed leader. The string parse_string assembles chunk by chunk is only appended to inside its scan loop. No character class of a token regex mixes the two quote characters (a quoted token ends at its own kind of quote). On every pass of the production loop that consumed a token, the production\'s end becomes the end of the last token consumed. Inside a block comment the scan cursor advances by at most one fetched character per pass (a character only peeked at is left for the next pass).',
         note='The round-trip clauses of C10 (rules, symbols, precedences, %epp, actions are the ones written in the '
              'source, whatever the layout) are NOT decided beyond the span and table clauses above. Trusted: ' + TB,
         technique='lock-step growth analysis of parallel tables over MIR (accessor-derived index classes, per-region push counting, def-use)',
